@@ -138,6 +138,44 @@ def run(ctx):
                             bd = bounds[(rr[k], q, rr[k + 1], cap)]
                             okc = okc and all(zc[k * q + j] <= bd[j - 1] for j in range(1, q))
                         ctx.check(okc, 'tt_to_qtt:ranks', 'tt_to_qtt(e=%g, r=%d): bonds %s violate the contract (TT-ranks %s, q=%d)' % (e_, cap, zc, rr, q))
+    # the core-level pair called directly (middle cores: both outer ranks above one): slice of the core at i = product of
+    # the QTT-core slices at the little-endian bits of i, inner bonds within the Qtt.tla bounds, outer ranks kept,
+    # core_qtt_to_tt inverse to core_tt_to_qtt; the argument is left alone
+    for q in (1, 2, 3) + (() if quick else (4,)):
+        n = 2 ** q
+        for (r1, r2) in ((2, 3), (3, 2), (1, 4), (4, 1), (3, 3), (1, 1)):
+            G = rng.integers(-2, 3, size=(r1, n, r2)).astype(float)
+            keepG = G.copy()
+            for cap, e_ in ((100, 1e-14), (100, 0.), (1, 1e-12), (2, 1e-12), (2, 1e-2), (3, 1e-12)):
+                ctx.case(key=('core', q, r1, r2, cap, e_), nontrivial=q >= 2 and min(r1, r2) >= 2)
+                try:
+                    Q = teneva.core_tt_to_qtt(G, e_, cap)
+                except Exception as ex:
+                    ctx.violation('core_tt_to_qtt:raises', 'core_tt_to_qtt(core %dx%dx%d, e=%g, r=%d) raised %s: %s' % (r1, n, r2, e_, cap, type(ex).__name__, ex))
+                    continue
+                okc = isinstance(Q, list) and len(Q) == q and all(isinstance(x, np.ndarray) and x.ndim == 3 and x.shape[1] == 2 and np.isfinite(x).all() for x in Q)
+                okc = okc and all(Q[k].shape[2] == Q[k + 1].shape[0] for k in range(q - 1)) and Q[0].shape[0] == r1 and Q[-1].shape[2] == r2
+                okc = okc and np.array_equal(G, keepG)
+                if not ctx.check(okc, 'core_tt_to_qtt:wellformed', 'core_tt_to_qtt(core %dx%dx%d, e=%g, r=%d): not a chain of q=%d cores r1 x 2 x .. x 2 x r2 with the outer ranks kept (shapes %s), or the argument changed'
+                                 % (r1, n, r2, e_, cap, q, [getattr(x, 'shape', None) for x in Q] if isinstance(Q, list) else type(Q).__name__)):
+                    continue
+                if cap <= 3 and (r1, q, r2, cap) in bounds:
+                    bd = bounds[(r1, q, r2, cap)]
+                    ctx.check(all(Q[j - 1].shape[2] <= bd[j - 1] for j in range(1, q)), 'core_tt_to_qtt:ranks',
+                              'core_tt_to_qtt(core %dx%dx%d, e=%g, r=%d): inner bonds %s exceed the bounds %s' % (r1, n, r2, e_, cap, [x.shape[2] for x in Q[:-1]], bd))
+                if cap == 100:
+                    dev_ = 0.
+                    for i_ in range(n):
+                        M = np.eye(r1)
+                        for k_ in range(q):
+                            M = M @ Q[k_][:, (i_ >> k_) & 1, :]
+                        dev_ = max(dev_, np.abs(M - G[:, i_, :]).max())
+                    ctx.check(dev_ <= 1e-9, 'core_tt_to_qtt:value', 'core %dx%dx%d (e=%g): slice i of the core differs from the product of the QTT-core slices at the little-endian bits of i by %.2e' % (r1, n, r2, e_, dev_))
+                    keepQ = [x.copy() for x in Q]
+                    Gb = teneva.core_qtt_to_tt(Q)
+                    okb_ = isinstance(Gb, np.ndarray) and Gb.shape == (r1, n, r2) and np.abs(Gb - G).max() <= 1e-9 and all(np.array_equal(a_, b_) for a_, b_ in zip(Q, keepQ))
+                    okb_ = okb_ and not any(np.shares_memory(Gb, x) for x in Q)
+                    ctx.check(okb_, 'core_qtt_to_tt:roundtrip', 'core_qtt_to_tt(core_tt_to_qtt(G)) differs from G (core %dx%dx%d, e=%g), changes or aliases its argument' % (r1, n, r2, e_))
     # value claim one step beyond the tabulated scope: q = 6..10 (mode sizes 64..1024), d = 2, 3, ranks up to 6
     for q_, d_ in ((6, 3), (8, 2), (10, 2), (7, 3)) if quick else ((6, 3), (8, 2), (10, 2), (7, 3), (9, 2), (5, 4), (12, 2)):
         n_ = 1 << q_
@@ -156,6 +194,22 @@ def run(ctx):
             Wb = teneva.qtt_to_tt(Zb, q_)
             okb = okb and F.is_wellformed(Wb, [n_] * d_) and np.abs(np.asarray(teneva.get_many(Wb, Ib)) - rb).max() <= 1e-8 * (1 + np.abs(rb).max())
         ctx.check(okb, 'tt_to_qtt:value', 'q = %d, d = %d, ranks %s: QTT entries at the bits of i differ from the entries at i, outer bonds changed, or the round trip fails' % (q_, d_, rr_))
+    # the documented default cap (signature: e = 1e-12, r = 100) binds on tensors whose bit-unfoldings inside a mode have
+    # rank above 100: leaving the arguments out is the same as naming them, and no inner bond exceeds the cap
+    for q_, rk_ in ((10, 16),) if quick else ((10, 16), (10, 20), (11, 12)):
+        n_ = 1 << q_
+        Yd = [rng.normal(size=(1, n_, rk_)), rng.normal(size=(rk_, n_, 1))]
+        Zdef = teneva.tt_to_qtt(Yd)
+        Zexp = teneva.tt_to_qtt(Yd, 1e-12, 100)
+        ctx.case(key=('default-cap', q_, rk_), nontrivial=True)
+        okd = F.is_wellformed(Zdef, [2] * (2 * q_)) and F.is_wellformed(Zexp, [2] * (2 * q_))
+        if okd:
+            bd_ = [G.shape[2] for G in Zdef]
+            inner = [bd_[j] for j in range(2 * q_ - 1) if (j + 1) % q_ != 0]
+            okd = max(inner) <= 100 and bd_ == [G.shape[2] for G in Zexp] and all(np.array_equal(a_, b_) for a_, b_ in zip(Zdef, Zexp)) and bd_[q_ - 1] == rk_
+            okd = okd and max(inner) == 100          # non-vacuity of the instance: the cap really binds
+        ctx.check(okd, 'tt_to_qtt:default-cap', 'tt_to_qtt(Y) with the default arguments on shape [2^%d]*2, TT-rank %d: bonds %s; with e=1e-12, r=100 named: %s'
+                  % (q_, rk_, [G.shape[2] for G in Zdef] if isinstance(Zdef, list) else None, [G.shape[2] for G in Zexp] if isinstance(Zexp, list) else None))
     # the index maps for quantisation levels far above the tabulated ones (q up to 62: every index below 2^62 is an int64)
     for q in (20, 31, 32, 40, 53, 54, 55, 60, 62):
         for d_ in (1, 2, 3):
